@@ -43,6 +43,7 @@ var c07Reqs = []c07Req{
 	{"dir-var-false", `query($s:Boolean!){ x1 @skip(if:$s) x2 a { name @include(if:$s) id } }`, map[string]interface{}{"s": false}},
 	{"enum-list-var", `query($ks:[Kind]){ echo2(ks:$ks) }`, map[string]interface{}{"ks": []interface{}{"BETA", "GAMMA", "ALPHA"}}},
 	{"field-errors", `{ x1 leafy { s sNN } a { name } }`, nil},
+	{"object-field-merge", `{ nodes(n:3) { meta { s } ... on A { meta { i } } ... on C { meta { f b } } } node { meta { s } ... on A { meta { i } } ... on B { meta { id } } } }`, nil},
 	{"fieldresolver-static-args", `{ plainFR { echoArg(x:5, y:2) e2: echoArg name } x1 }`, nil},
 	// executed only as an unvalidated prepared plan: the literal makes user code
 	// (ParseLiteral) panic while an abstract alternative is being planned lazily
